@@ -315,6 +315,9 @@ def _run(case, hc, servers, names, owner, key_of, routes, world, env, clock):
                 hc.set(key, "1")
             elif opn == "get_many":
                 hc.get_many(list(owner))
+            elif opn == "get_many_big":
+                # thousands of keys in one call (with one server they all live on it): still one request to that server
+                hc.get_many(["big-%d" % j for j in range(4500)] + [key])
             elif opn == "set_many":
                 hc.set_many({k: "1" for k in owner})
             elif opn == "set_many_mixed":
@@ -407,8 +410,8 @@ def _run(case, hc, servers, names, owner, key_of, routes, world, env, clock):
                 V("routing", "routing decision for %r over rotation %r chose %r, placement gives %r" % (k, list(rot), node, want))
         if opn == "set_many_mixed":
             pass          # two keys, possibly two servers while one is out: only the bounds, routing and eviction rules apply
-        elif opn == "incr_text":
-            pass          # three calls on one key: the bounds, routing and eviction rules apply
+        elif opn in ("incr_text", "get_many_big"):
+            pass          # several calls on one key / thousands of keys: the bounds, routing and eviction rules apply
         elif opn in ("get", "set", "delete", "incr"):
             if len(rt) != 1:
                 V("routing-count", "%s(%r) made %d routing decisions" % (opn, key, len(rt)))
@@ -589,6 +592,15 @@ def real_train_cases(tier, seed):
                         yield {"servers": 2 + (n + ra) % 2, "retry_attempts": ra, "ignore_exc": ie, "backend": "real", "recovery_step": 7, "events": ev,
                                "recovery_op": ("get", "set_many", "get_many")[(sum(gaps) + n) % 3], "aws": bool((sum(gaps) + n + ra + ie) % 2),
                                "dialect": ["hangup-after-error"] if (sum(gaps) + ra) % 2 else None}
+    # one call with thousands of keys for a failing server
+    for ra in (0, 1, 2):
+        for ie in (False, True):
+            for backend in ("scripted", "real"):
+                for gaps in ((), (0,), (1,), (2, 1), (1, 2, 0)):
+                    ev = [["fail", 0, "refused"], ["op", "get_many_big", 0]]
+                    for g in gaps:
+                        ev += [["adv", GAPS[g]], ["op", "get_many_big", 0]]
+                    yield {"servers": 1, "retry_attempts": ra, "ignore_exc": ie, "backend": backend, "recovery_step": 7, "events": ev + [["heal", 0], ["adv", 61], ["op", "get_many_big", 0]]}
     # a healthy server that answers with error lines (and hangs up after each): it has not failed
     for ra in (0, 1, 2):
         for ie in (False, True):
